@@ -39,14 +39,14 @@ def parents_ok(n, ps):
     return True
 
 
-@lemma('S1.traverse', 'C12', quick=[{'n': n} for n in (1, 2, 3)] + [{'n': 4, 'filt': f, 'src': i} for f in (0, 1, 2) for i in (False, True)],
+@lemma('S1.traverse', 'C12', quick=[{'n': n} for n in (1, 2, 3)] + [{'n': 4, 'filt': f, 'src': i, 'tup': t} for f in (0, 1, 2) for i in (False, True) for t in (False, True)],
        thorough=[{'n': n} for n in (1, 2, 3)] + [{'n': n, 'filt': f, 'src': i, 'timeout': 6000} for n in (4, 5) for f in (0, 1, 2) for i in (False, True)], timeout=900, per_path=60,
        covers=['utils.py:traverse', 'token.py:Token.children'],
        note='all tree shapes over n nodes (parent vector), node classes, children as list or tuple, klass filter, depth limit (unbounded int or None), include_source')
 def s1_traverse(p1: int, p2: int, p3: int, p4: int, p5: int, k0: bool, k1: bool, k2: bool, k3: bool, k4: bool, k5: bool,
                 as_tuple: bool, filt: int, depth: int, nodepth: bool, include_source: bool) -> bool:
     """
-    pre: parents_ok(P('n'), [p1, p2, p3, p4, p5]) and 0 <= filt <= 2 and fixed(filt, 'filt') and fixed(include_source, 'src')
+    pre: parents_ok(P('n'), [p1, p2, p3, p4, p5]) and 0 <= filt <= 2 and fixed(filt, 'filt') and fixed(include_source, 'src') and fixed(as_tuple, 'tup')
     post: _
     """
     n = P('n')
@@ -199,7 +199,7 @@ def digits_ok(k, *cs):
     return True
 
 
-@lemma('S4.scalars', 'C12', quick=[{'k': k} for k in (1, 2, 3)], thorough=[{'k': k} for k in range(1, 10)], timeout=600, per_path=90,
+@lemma('S4.scalars', 'C12', quick=[{'k': k} for k in (1, 2)], thorough=[{'k': k} for k in range(1, 10)], timeout=600, per_path=90,
        covers=['block_token.py:List.__init__', 'block_token.py:ListItem.parse_marker', 'block_token.py:SetextHeading.__init__',
                'block_token.py:Heading.start'],
        note='ordered list: start == int(digits of the first marker) for every digit string of length k; bullet list: start is None; setext level in {1,2}; heading level in 1..6')
